@@ -43,7 +43,7 @@ def _spec(draw, tier):
 
 
 def strategy(tier):
-    return gens.with_pre(_spec(tier))
+    return gens.with_pre(_spec(tier), prelude=False)    # memory contents survive a reset
 
 
 def check(spec, stats):
